@@ -6,6 +6,7 @@ Proofs/MarkerShape.lean, Proofs/MarkerPrint.lean).
 import PoetryVerif.Proofs.MarkerAlgSoundOps
 import PoetryVerif.Proofs.MarkerShape
 import PoetryVerif.Proofs.MarkerPrint
+import PoetryVerif.Proofs.MarkerPrintChars
 import PoetryVerif.Proofs.MarkerEval
 
 set_option linter.unusedSimpArgs false
@@ -159,16 +160,6 @@ example : ∃ r, cnf 60 [] (.union [.multi [.leaf (.single Ex.sA), .leaf (.singl
   · marker_eval [Ex.sA, Ex.sNA, Ex.sB, Ex.i1, Ex.i2, Ex.i3, Ex.i4, Ex.i5, Ex.u1, Ex.u2, Ex.u3, Ex.u4, Ex.u5]
   · simp [Leaf.Printable, Leaf.toSyn]
 
-mutual
-/-- `(n, op, v, sw)` occurs as an item of the tree -/
-def AtomItemIn : Atom → String → String → String → Bool → Prop
-  | .item n' op' v' sw', n, op, v, sw => n' = n ∧ op' = op ∧ v' = v ∧ sw' = sw
-  | .paren m, n, op, v, sw => ItemIn m n op v sw
-def ItemIn : Syn → String → String → String → Bool → Prop
-  | .one a, n, op, v, sw => AtomItemIn a n op v sw
-  | .more a _ rest, n, op, v, sw => AtomItemIn a n op v sw ∨ ItemIn rest n op v sw
-end
-
 /-- **Results of `intersect` / `union` are printable**: for printable operands over leaves satisfying the
 leaf facts and having a text, the result is Any, Empty, or has a marker text (whichever of the DNF, the CNF
 and the unnormalised candidate wins on complexity) — every fuel, every stack. -/
@@ -183,11 +174,34 @@ example : LeafSpec (leafEval Ex.envAB) Ex.G0 ∧ (∀ l, Ex.G0 l → Leaf.Printa
   refine ⟨Ex.leafSpec0, ?_, rfl⟩
   intro l hl; rcases hl with rfl | rfl | rfl <;> rfl
 
-/-- what is not proved: the character level (the text of a grammar tree, lexed and parsed by the model of
-`markers.lark`, is that tree — items with grammar names/operators and values free of quotes, backslashes
-and newlines) -/
-def C13_print_parse_full_statement : Prop :=
-  ∀ t : Syn, (∀ n op v sw, ItemIn t n op v sw → n ∈ names ∧ op ∈ ops ∧ ∀ c ∈ v.toList, c ≠ '"' ∧ c ≠ '\\' ∧ c ≠ '\n' ∧ c ≠ '\'') →
-    parseText t.text = .ok t
+/-- **Character level: the text of a tree is parsed back to the tree** by the model of poetry-core's own
+grammar (`parseText`, the recogniser of `markers.lark`), for every tree whose items use names and operators of
+the grammar's vocabularies and values free of `"`, `\\` and newlines — all trees, unbounded depth and width,
+both item orientations. -/
+theorem print_parse_chars (t : Syn) (hl : t.Lexable) : parseText t.text = .ok t := parseText_text t hl
+
+example : (Syn.more (.item "os_name" "==" "nt" false) false
+    (.one (.paren (.more (.item "extra" "!=" "a b" false) true (.one (.item "sys_platform" "in" "x" true)))))).Lexable := by
+  simp only [Syn.Lexable, Atom.Lexable, ValOk]
+  refine ⟨⟨by decide, by decide, ?_⟩, ⟨by decide, by decide, ?_⟩, by decide, by decide, ?_⟩ <;>
+    (intro c hc; simp at hc; rcases hc with rfl | rfl | rfl <;> decide)
+
+/-- **`parse_marker`'s grammar reads `str(m)` back**: for a printable marker over good leaves whose own texts
+are lexable, `__str__` succeeds, `parseText (str m)` is exactly the tree of `m`, and `_compact_markers` turns
+it into a marker with the same truth value — the statement about `parseText ∘ toStr`. -/
+theorem print_parse_partial {ev : Leaf → Bool} (S : LeafSpec ev G) (hL : ∀ l, G l → LeafPrintOK ev G l)
+    (hX : ∀ l, G l → Leaf.Lexable l) {m : M} {t : Syn} (hg : M.Good G m) (h : M.toSyn m = some t) :
+    ∃ s, M.toStr m = .ok s ∧ parseText s = .ok t ∧
+      ∃ m', compactRaw t = .ok m' ∧ M.Good G m' ∧ M.sem ev m' = M.sem ev m :=
+  M.parseText_toStr S hL hX hg h
+
+example : ∀ l, Ex.G0 l → Leaf.Lexable l := by
+  intro l hl
+  have hv : ∀ v : String, (v = "a" ∨ v = "b") → ValOk v := by
+    intro v hv c hc; rcases hv with rfl | rfl <;> (simp at hc; subst hc; decide)
+  rcases hl with rfl | rfl | rfl
+  · exact leafLexable_single (by decide) (by decide) (hv _ (Or.inl rfl))
+  · exact leafLexable_single (by decide) (by decide) (hv _ (Or.inl rfl))
+  · exact leafLexable_single (by decide) (by decide) (hv _ (Or.inr rfl))
 
 end Poetry.C13
